@@ -82,9 +82,10 @@ pub fn err_class(code: &str, _message: &str) -> &'static str {
 
 /// the row text in which a quoted id means "this row refers to that element"
 fn reference_text(full: &str) -> String {
-    if !full.contains("\"supersede") { return full.to_string(); }
+    if !full.contains("\"supersede") && !full.contains("\"merged_into\":\"C") { return full.to_string(); }
     match serde_json::from_str::<Value>(full) {
-        Ok(Value::Object(mut m)) => { m.remove("supersedes"); m.remove("superseded_by"); Value::Object(m).to_string() }
+        // (neither is a Concept's `merged_into` pointer: `Element::references` lists a Concept's structural edges only)
+        Ok(Value::Object(mut m)) => { m.remove("supersedes"); m.remove("superseded_by"); m.remove("merged_into"); Value::Object(m).to_string() }
         _ => full.to_string(),
     }
 }
